@@ -42,7 +42,7 @@ def setup(ctx):
 
     vids = []
     for k, (H, W) in enumerate([(64, 80), (72, 64)]):
-        p = synth.write_h5_video(os.path.join(synth.workdir("C11"), f"v{k}.h5"), rng.integers(0, 255, (4, H, W, 1), dtype=np.uint8))
+        p = synth.write_h5_video(os.path.join(synth.workdir("C11"), f"v{k}.h5"), rng.integers(0, 255, (14, H, W, 1), dtype=np.uint8))
         vids.append(sio.load_video(p))
     _S["vids"] = vids
 
@@ -51,6 +51,8 @@ def gen_case(ctx, i):
     r = ctx.rng(11, i)
     n_nodes = int(r.integers(3, 5))
     F = int(r.integers(1, 5))
+    if i % 9 == 5:
+        F = int(r.integers(11, 15))  # more than ten samples: chunk files sample_10.. exist (re-opened chunk folders are indexed by file name)
     cls = ["single", "bottomup", "centroid", "centered"][i % 4]
     frames = []
     vid0 = int(r.integers(0, 2)) if cls != "single" else 0
@@ -87,7 +89,8 @@ def gen_case(ctx, i):
         frames.append({"video": vid0, "frame_idx": f, "animals": animals})  # one video size per label set (no size matching in this check)
     anchor = [None] + list(range(n_nodes))
     seq = [int(x) for x in r.integers(0, 50, int(r.integers(3, 31)))]
-    return {"i": i, "cls": cls, "n_nodes": n_nodes, "frames": frames, "anchor": anchor[int(r.integers(0, len(anchor)))], "np_chunks": bool(r.random() < 0.4),
+    return {"i": i, "cls": cls, "n_nodes": n_nodes, "frames": frames, "anchor": anchor[int(r.integers(0, len(anchor)))], "np_chunks": bool(r.random() < 0.4) or F > 4,
+            "hidden_xy": bool(r.random() < 0.3),
             "seq": seq, "seed": int(r.integers(0, 2 ** 31)), "aug_pass": bool(r.random() < 0.25)}
 
 
@@ -124,7 +127,7 @@ def same(a, b):
     return a == b if not isinstance(a, np.ndarray) else np.array_equal(a, b)
 
 
-def build_dataset(case, labels, aug=False):
+def build_dataset(case, labels, aug=False, reuse=None):
     from omegaconf import OmegaConf
     from sleap_nn.data import custom_datasets as cd
     from vf import synth
@@ -132,12 +135,14 @@ def build_dataset(case, labels, aug=False):
     data_cfg = OmegaConf.create({"user_instances_only": True, "preprocessing": {"is_rgb": False},
                                  "augmentation_config": {"intensity": {"uniform_noise_p": 1.0, "contrast_p": 1.0}, "geometric": {"rotation": 20.0, "scale": (0.9, 1.1), "translate_width": 0.05, "translate_height": 0.05, "affine_p": 1.0}}})
     head = OmegaConf.create({"sigma": 1.5, "output_stride": 2, "anchor_part": case["anchor"], "part_names": None})
-    chunks = None
-    if case["np_chunks"]:
+    chunks = reuse
+    if case["np_chunks"] and not reuse:
         import tempfile
 
         chunks = tempfile.mkdtemp(prefix="chunks-", dir=synth.workdir("C11"))
     common = dict(labels=labels, data_config=data_cfg, max_stride=8, scale=1.0, apply_aug=aug, max_hw=(None, None), np_chunks=case["np_chunks"], np_chunks_path=chunks)
+    if reuse:
+        common["use_existing_chunks"] = True
     cls = case["cls"]
     if cls == "single":
         return cd.SingleInstanceDataset(confmap_head_config=head, **common), chunks
@@ -164,6 +169,16 @@ def check(ctx, case):
     small = case
     frames_spec = [(_S["vids"][fr["video"]], fr["frame_idx"], [arr(a["pts"], n) for a in fr["animals"]], [a["pred"] for a in fr["animals"]]) for fr in case["frames"]]
     labels = synth.labels_from_poses(frames_spec, sk)
+    if case.get("hidden_xy"):
+        # a node toggled off in a labelling GUI keeps its stored coordinates: visible=False with finite xy is a *missing* keypoint
+        rh = np.random.default_rng(case["seed"] + 5)
+        for lf in labels:
+            for inst in lf.instances:
+                miss = np.isnan(inst.points["xy"]).any(1)
+                if miss.any() and not miss.all():
+                    inst.points["xy"][miss] = rh.uniform(12, 50, (int(miss.sum()), 2))
+                    inst.points["visible"][miss] = False
+                    ctx.count("hidden_finite_points", int(miss.sum()))
     label_snapshot = [[inst.numpy().copy() for inst in lf.instances] for lf in labels]
     # expected samples from the labels alone
     exp = []  # list of (frame index in labels, [poses]) or (frame, inst idx, pose)
@@ -217,6 +232,24 @@ def check(ctx, case):
                 generate_centroids(s["instances"], anchor_ind=case["anchor"])
             elif "instance" in s:
                 generate_centroids(s["instance"], anchor_ind=case["anchor"])
+    # a second dataset object over the chunk folder the first one wrote must return the same sample for every index
+    if chunks and len(ds):
+        try:
+            ds_re, _ = build_dataset(case, labels, reuse=chunks)
+            ctx.count("reopened_chunk_datasets")
+            if len(ds_re) != len(ds):
+                ctx.violation("reopened-chunks-length", f"{cls}: re-opened chunk dataset has {len(ds_re)} samples, the dataset that wrote the chunks {len(ds)}", small)
+            for idx in range(min(len(ds), len(ds_re))):
+                a_, b_ = ds[idx], ds_re[idx]
+                bad_keys = [k for k in a_ if k not in b_ or not same(a_[k], b_[k])]
+                if bad_keys:
+                    ctx.violation("reopened-chunks-differ", f"{cls}: index {idx} of a dataset re-opened with use_existing_chunks differs from the one that wrote the chunks in {bad_keys[:3]} ({len(ds)} samples)", small)
+                    break
+        except Exception as e:
+            import traceback
+
+            fr_ = [f for f in traceback.extract_tb(e.__traceback__) if "/sleap_nn/" in f.filename]
+            ctx.violation(f"reopened-chunks-raises:{type(e).__name__}@{fr_[-1].name if fr_ else '?'}", f"{cls}: re-opening the chunk folder raised {type(e).__name__}: {str(e)[:160]}", small)
     # direct purity calls not reached by the datasets
     try:
         find_instance_crop_size(labels, padding=4, maximum_stride=8, input_scaling=0.5)
